@@ -140,11 +140,16 @@ def emit_or_exc(kind, ir, opts):
         return ("exc", type(e).__name__)
 
 
-def attach_body(ir):
+def attach_body(ir, variant=0):
+    """variant bit 0: the body ends in a `return` (as parse.function carries it);
+    variant bit 1: the body came from a function named like the argparse emitter's default."""
     names = [n for n in ir["params"] if not n.endswith("kwargs")]
     src = "acc = [{}]\nfor zq_item in acc:\n    print(zq_item, {})\nzq_tmp = len(acc)".format(
         ", ".join(names), names[0] if names else "None")
-    ir["_internal"] = {"body": ast.parse(src).body, "from_name": "f_target", "from_type": "static"}
+    if variant & 1:
+        src += "\nreturn zq_tmp"
+    body = ast.parse("def _zq():\n" + "\n".join("    " + l for l in src.split("\n"))).body[0].body
+    ir["_internal"] = {"body": body, "from_name": "set_cli_args" if variant & 2 else "f_target", "from_type": "static"}
     return ir
 
 
@@ -180,7 +185,7 @@ def run_sequences(ctx, ir0, feat, seqs, opts_table, base0, body):
                          seq_len=len(seq), culprit_pairs=culprits, body=body,
                          expected=where[:300], observed="")
                 ctx.report(d, {"ir": ir_jsonable(ir0), "feat": feat, "seq": list(seq), "body": body,
-                               "alt": opts_table is ALT_OPTS})
+                               "body_variant": base0.get("body_variant") or 0, "alt": opts_table is ALT_OPTS})
                 break
 
 
@@ -248,10 +253,15 @@ def run(ctx):
         for i in range(n_irs):
             ir0, feat = g.ir()
             body = bool(i % 2) and feat["n_params"] > 0
+            variant = (i // 2) % 4
             if body:
-                attach_body(ir0)
+                attach_body(ir0, variant)
             base0 = case_base(OP, "any", ir0, feat, {})
             base0["has_body"] = body
+            base0["body_variant"] = variant if body else None
+            if body:
+                ctx.feature("body_ends_in_return" if variant & 1 else "body_without_return")
+                ctx.feature("body_from_set_cli_args" if variant & 2 else "body_from_f_target")
             if exhaustive:
                 # every shard walks a slice of the complete 343 + 2401 enumeration; over the
                 # IR pool every sequence is executed many times
@@ -283,7 +293,7 @@ def replay(payload):
     ctx.case(("replay",))
     ir0 = ir_from_jsonable(rp["ir"])
     if rp.get("body"):
-        attach_body(ir0)
+        attach_body(ir0, rp.get("body_variant", 0))
     if "seq" in rp:
         seq = tuple(rp["seq"])
         seqs = [(a, seq[-1]) for a in set(seq[:-1])] + [seq]
